@@ -264,14 +264,22 @@ class History:
             out["exc"] = f"{type(e).__name__}: {str(e)[:200]}"
         return out
 
+    # in-flight markers of transactions the harness holds open must keep looking *live*: the
+    # library treats a marker older than its abandonment timeout (24 h) as an abandoned
+    # transaction by documented design, so markers are never aged beyond this cap
+    MARKER_AGE_CAP = 80000.0
+
     def age_all(self, seconds: float) -> None:
         if self.backend == "local":
             tables.age_tree(self.root, seconds)
+            if seconds > self.MARKER_AGE_CAP:
+                tables.age_tree(self.root, self.MARKER_AGE_CAP, only=["metadata/inflight"])
         else:
             pre = self.s3env.full_prefix(self.table_path)
             for (b, k) in list(self.store.objects):
                 if b == self.s3env.bucket and k.startswith(pre):
-                    self.store.set_age(b, k, seconds)
+                    marker = "/metadata/inflight/" in "/" + k
+                    self.store.set_age(b, k, min(seconds, self.MARKER_AGE_CAP) if marker else seconds)
 
     def inflight_files(self) -> Set[str]:
         out: Set[str] = set()
